@@ -46,6 +46,29 @@ def main():
         s["config"]["async_place"] = True
         scs4.append(s)
     simcheck.run_family(ck, "async_placement", scs4, propcheck.c07, "C07", "timing-async", hyp=True)
+    # historic sports data (race updates) replayed between the market updates by SimulatedSportsDataMiddleware: the clock every callback sees is
+    # still the publish time of the MARKET update being processed, and requests take effect as without the sports data (compared with the model)
+    scs6 = [simgen.gen_scenario(rng, {"kinds": ["L"], "p_manage": 0.5, "p_remove": 0.0, "no_remove": True, "nstrats": [1, 2], "min_upd": 7, "max_upd": 12}) for _ in range(120 if thorough else 30)]
+    for sc in scs6:
+        sc["config"]["race_data"] = rng.choice([1, 10, 40])
+    simcheck.run_family(ck, "race_data_replayed_alongside", scs6, propcheck.c07, "C07", "timing-race", hyp=True)
+    # paper trading (live Flumine, paper_trade client, real threads and sleeps; outside the Coq model): two requests on their way at once - a
+    # placement that takes bet delay + place latency and a cancel of another order: the cancel is answered one cancel latency after its request
+    # (not earlier), and it does not queue behind the placement (an order being cancelled stops being fillable when its cancel is due)
+    pcases = [{"delay": d} for d in ((1, 2, 1, 3) if thorough else (1, 2))]
+    pres = [r for o in run_impl_parallel("paperlib", [{"job": "timing", "cases": [c]} for c in pcases], timeout=600) for r in o["out"]]
+    pbad = []
+    for i, (c, r) in enumerate(zip(pcases, pres)):
+        if r.get("error"):
+            pbad.append((i, "the paper-trading run raised %s" % r["error"])); continue
+        t = r["cancel_answered_after_s"]
+        if t < 0.17 - 0.005:
+            pbad.append((i, "the cancel was answered %.3f s after the request, before its latency of 0.17 s had passed" % t))
+        elif t > 0.17 + 0.5 or r["a"]["status"] != "Execution complete" or r["a"]["cancelled"] != 2.0:
+            pbad.append((i, "the cancel was answered %.3f s after the request (latency 0.17 s; a placement with a bet delay of %s s was on its way at the same time); the order ended %s" % (t, c["delay"], r["a"])))
+    ck.family("paper_trading_two_requests_on_their_way", len(pcases), len(pcases), [], [i for i, _ in pbad], dist={"cancel_answered_after_s": [r.get("cancel_answered_after_s") for r in pres]})
+    for i, why in pbad[:1]:
+        ck.fail("C07-paper-latency", "paper trading: " + why, {"case": pcases[i], "out": pres[i], "how": "harness/impl/paperlib.py job timing"})
     return ck.finish("scenarios on the real FlumineSimulation with update spacings from 1 ms to a minute hitting delay-1/delay/delay+1 ms for all four request kinds and bet delays 0/1/5 (changing at in-play), several requests between two updates, 1-3 markets (event-grouped: updates of other markets in between), default and custom latencies; compared with the Coq model; independent checker: effect at the first update of the market later than request+delay, pending/transient until then, clock = publish time in every callback, fragment times")
 
 
